@@ -39,6 +39,9 @@ type c19Case struct {
 	L      c19Operand `json:"l"`
 	R      c19Operand `json:"r"`
 	GRL    bool       `json:"grl"`
+	// Twins: the knowledge base also holds the "else" twin of every comparison rule, !(L op R), after (1) or
+	// before (2) the plain rules
+	Twins int `json:"negated_twins,omitempty"`
 }
 
 var c19IntKinds = []string{"int", "int8", "int16", "int32", "int64", "uint", "uint8", "uint16", "uint32", "uint64"}
@@ -405,8 +408,8 @@ func c19SetField(f *facts.Fact, o c19Operand) {
 
 var c19KBCache = map[string]*ast.KnowledgeLibrary{}
 
-func c19Lib(lf, rf string, ordered bool) (*ast.KnowledgeLibrary, error) {
-	key := fmt.Sprintf("%s|%s|%v", lf, rf, ordered)
+func c19Lib(lf, rf string, ordered bool, twins int) (*ast.KnowledgeLibrary, error) {
+	key := fmt.Sprintf("%s|%s|%v|%d", lf, rf, ordered, twins)
 	if lib, ok := c19KBCache[key]; ok {
 		return lib, nil
 	}
@@ -414,11 +417,19 @@ func c19Lib(lf, rf string, ordered bool) (*ast.KnowledgeLibrary, error) {
 	if ordered {
 		ops = append(ops, [2]string{"LT", "<"}, [2]string{"GT", ">"}, [2]string{"LTE", "<="}, [2]string{"GTE", ">="})
 	}
-	var b strings.Builder
+	var plain, neg strings.Builder
 	for _, o := range ops {
-		fmt.Fprintf(&b, "rule %s { when F.%s %s G.%s then Retract(\"%s\"); }\n", o[0], lf, o[1], rf, o[0])
+		fmt.Fprintf(&plain, "rule %s { when F.%s %s G.%s then Retract(\"%s\"); }\n", o[0], lf, o[1], rf, o[0])
+		fmt.Fprintf(&neg, "rule Else%s { when !(F.%s %s G.%s) then Retract(\"Else%s\"); }\n", o[0], lf, o[1], rf, o[0])
 	}
-	lib, err := obs.Build(b.String())
+	text := plain.String()
+	switch twins {
+	case 1:
+		text = plain.String() + neg.String()
+	case 2:
+		text = neg.String() + plain.String()
+	}
+	lib, err := obs.Build(text)
 	if err != nil {
 		return nil, err
 	}
@@ -432,7 +443,7 @@ func c19ViaGRL(c c19Case) (sixResults, bool, error) {
 	if !ok1 || !ok2 {
 		return sixResults{}, false, nil
 	}
-	lib, err := c19Lib(lf, rf, c.Family != "bool")
+	lib, err := c19Lib(lf, rf, c.Family != "bool", c.Twins)
 	if err != nil {
 		return sixResults{}, true, fmt.Errorf("building comparison rules: %v", err)
 	}
@@ -457,6 +468,21 @@ func c19ViaGRL(c c19Case) (sixResults, bool, error) {
 		return out, true, fmt.Errorf("a comparison of same-family operands raised an error: %v", ferr)
 	}
 	sort.Strings(names)
+	got := map[string]bool{}
+	for _, n := range names {
+		got[n] = true
+	}
+	if c.Twins > 0 {
+		ops := []string{"EQ", "NEQ"}
+		if c.Family != "bool" {
+			ops = append(ops, "LT", "GT", "LTE", "GTE")
+		}
+		for _, o := range ops {
+			if got[o] == got["Else"+o] {
+				return out, true, fmt.Errorf("rule %s (L op R) matches=%v and its else-twin Else%s (!(L op R)) matches=%v in the same knowledge base", o, got[o], o, got["Else"+o])
+			}
+		}
+	}
 	for _, n := range names {
 		switch n {
 		case "LT":
@@ -563,6 +589,9 @@ func genC19(t *rapid.T) c19Case {
 			Mono: !far && rapid.Bool().Draw(t, "rmono"), Wrap: rapid.SampledFrom([]string{"", "", "ptr", "iface"}).Draw(t, "rw")}
 	}
 	c.GRL = rapid.IntRange(0, 3).Draw(t, "grl") > 0
+	if c.GRL {
+		c.Twins = rapid.IntRange(0, 2).Draw(t, "negated_twins")
+	}
 	return c
 }
 
@@ -576,7 +605,7 @@ func c19NonTrivial(c c19Case) bool {
 }
 
 func TestC19(t *testing.T) {
-	col := stats.New("C19", "ordered pairs of operand kinds within a family (10 integer kinds, 2 float kinds, string, bool, time), values from a boundary pool or aimed at the other operand (equal / adjacent), optionally behind pointers or interfaces; checked on pkg.Evaluate* directly, with swapped operands, and through six GRL rules over typed fact fields. Non-trivial: operands differ in kind, wrapper, location or monotonic reading, or compare equal. Distinct by the full case.",
+	col := stats.New("C19", "ordered pairs of operand kinds within a family (10 integer kinds, 2 float kinds, string, bool, time), values from a boundary pool or aimed at the other operand (equal / adjacent), optionally behind pointers or interfaces; checked on pkg.Evaluate* directly, with swapped operands, and through six GRL rules over typed fact fields (in two thirds of those cases next to their negated else-twins !(L op R), which must give the complement). Non-trivial: operands differ in kind, wrapper, location or monotonic reading, or compare equal. Distinct by the full case.",
 		"unsigned values are restricted to the int64 range and NaN is excluded, as the property states",
 		"the reference order is float64 promotion when a float is involved and int64 comparison otherwise (the documented arithmetic)")
 	defer col.Flush()
